@@ -1,6 +1,371 @@
 import RQ.Model.Push
 /-! Helper lemmas for C18: an injected fault is never swallowed by the driver. -/
 namespace RQ.Push
-open RQ
+open RQ RQ.Parse RQ.Write
+
+/-- the body of `NotYet` of C18: the operation that is to fail has not been attempted yet -/
+def NY (w : World) : Prop := ∀ k, w.faultAt = some k → w.trace.length ≤ k
+
+theorem op_ny_aux {w : World} {o : Op} (r : Except IOErr FS)
+    (key : ∀ fs : FS, NY { w with trace := w.trace ++ [o], fs := fs }) :
+    (∀ w', (match r with
+        | .ok fs => OpRes.ok { w with trace := w.trace ++ [o], fs := fs }
+        | .error .notFound => OpRes.notFound { w with trace := w.trace ++ [o] }
+        | .error .other => OpRes.failed { w with trace := w.trace ++ [o] }) = .ok w' → NY w') ∧
+    (∀ w', (match r with
+        | .ok fs => OpRes.ok { w with trace := w.trace ++ [o], fs := fs }
+        | .error .notFound => OpRes.notFound { w with trace := w.trace ++ [o] }
+        | .error .other => OpRes.failed { w with trace := w.trace ++ [o] }) = .notFound w' → NY w') := by
+  cases r with
+  | ok fs =>
+    exact ⟨fun w' e => (by cases e; exact key fs), fun w' e => (by cases e)⟩
+  | error err =>
+    cases err with
+    | notFound => exact ⟨fun w' e => (by cases e), fun w' e => (by cases e; exact key w.fs)⟩
+    | other => exact ⟨fun w' e => (by cases e), fun w' e => (by cases e)⟩
+
+theorem op_ny {w : World} {o : Op} (h : NY w) :
+    (∀ w', w.op o = .ok w' → NY w') ∧ (∀ w', w.op o = .notFound w' → NY w') := by
+  unfold World.op
+  by_cases hfa : (w.faultAt == some w.trace.length) = true
+  · simp only [hfa, if_true]
+    exact ⟨fun _ e => (by cases e), fun _ e => (by cases e)⟩
+  · simp only [hfa]
+    have key : ∀ fs : FS, NY { w with trace := w.trace ++ [o], fs := fs } := by
+      intro fs k hk
+      have h1 := h k hk
+      simp only [List.length_append, List.length_singleton]
+      have : k ≠ w.trace.length := by
+        intro hkk
+        apply hfa
+        simp only at hk
+        rw [hk, hkk]
+        exact beq_self_eq_true _
+      omega
+    exact op_ny_aux _ key
+
+theorem ny_ok {w w' : World} {o : Op} (h : NY w) (e : w.op o = .ok w') : NY w' := (op_ny h).1 w' e
+theorem ny_notFound {w w' : World} {o : Op} (h : NY w) (e : w.op o = .notFound w') : NY w' :=
+  (op_ny h).2 w' e
+
+/-- on success the fault has not been attempted; a failure after the fault was attempted is an ordinary
+error (never a panic) -/
+def WRNY {α : Type} (P : α → World) : WR α → Prop
+  | .ok a => NY (P a)
+  | .error p => NY p.2 ∨ p.1 = .err
+
+variable {w : World}
+
+theorem writeNew_ny {k : Key} (perms : Option Nat) (content : Bytes) (h : NY w) :
+    WRNY id (writeNew w k perms content) := by
+  generalize hr : writeNew w k perms content = r
+  unfold writeNew at hr
+  have hwrite : ∀ {w : World} {r : WR World}, NY w →
+      (match w.op (Op.write k content) with
+        | OpRes.ok w => Except.ok w
+        | OpRes.notFound w => Except.error (Fail.err, w)
+        | OpRes.failed w => Except.error (Fail.err, w)) = r → WRNY id r := by
+    intro w r h hr
+    split at hr
+    · rename_i hop; subst hr; exact ny_ok h hop
+    · subst hr; exact .inr rfl
+    · subst hr; exact .inr rfl
+  cases perms with
+  | none =>
+    simp only at hr
+    exact hwrite h hr
+  | some p =>
+    simp only at hr
+    split at hr
+    · rename_i heq
+      subst hr
+      split at heq
+      · cases heq
+      · cases heq; exact .inr rfl
+      · cases heq; exact .inr rfl
+    · rename_i heq
+      split at heq
+      · rename_i hop
+        cases heq
+        exact hwrite (ny_ok h hop) hr
+      · cases heq
+      · cases heq
+
+theorem saveRejFiles_ny (rejs : List (Bytes × Bytes)) :
+    ∀ {w : World}, NY w → WRNY id (saveRejFiles w rejs) := by
+  induction rejs with
+  | nil => intro w h; unfold saveRejFiles; exact h
+  | cons x rest ih =>
+    intro w h
+    obtain ⟨name, content⟩ := x
+    generalize hr : saveRejFiles w ((name, content) :: rest) = r
+    unfold saveRejFiles at hr
+    split at hr
+    · subst hr; exact .inr rfl
+    · rename_i k _
+      split at hr
+      · subst hr; exact .inr rfl
+      all_goals
+        rename_i w0 hop
+        have h1 : NY w0 := by
+          first | exact ny_ok h hop | exact ny_notFound h hop
+        split at hr
+        · rename_i hop2; subst hr; exact ih (ny_notFound h1 hop2)
+        · subst hr; exact .inr rfl
+        · rename_i w2 hop2
+          have h3 := ny_ok h1 hop2
+          split at hr
+          · rename_i hop3; subst hr; exact ih (ny_ok h3 hop3)
+          · subst hr; exact .inr rfl
+          · subst hr; exact .inr rfl
+
+theorem saveModifiedFile_ny {name : Bytes} {f : FileSt Bytes} (h : NY w) :
+    WRNY (·.1) (saveModifiedFile w name f) := by
+  generalize hr : saveModifiedFile w name f = r
+  unfold saveModifiedFile at hr
+  split at hr
+  · subst hr; exact .inr rfl
+  · rename_i k hk
+    simp only at hr
+    split at hr
+    · rename_i e heq
+      subst hr
+      split at heq
+      · split at heq
+        · cases heq
+        · cases heq
+        · cases heq; exact .inr rfl
+      · cases heq
+    · rename_i w1 heq
+      have h1 : NY w1 := by
+        split at heq
+        · split at heq
+          · rename_i hop; cases heq; exact ny_ok h hop
+          · rename_i hop; cases heq; exact ny_notFound h hop
+          · cases heq
+        · cases heq; exact h
+      split at hr
+      · subst hr; exact h1
+      · split at hr
+        · rename_i e heq2
+          subst hr
+          split at heq2
+          · split at heq2
+            · cases heq2
+            · cases heq2; exact .inr rfl
+            · cases heq2; exact .inr rfl
+          · cases heq2
+        · rename_i w2 heq2
+          have h3 : NY w2 := by
+            split at heq2
+            · split at heq2
+              · rename_i hop; cases heq2; exact ny_ok h1 hop
+              · cases heq2
+              · cases heq2
+            · cases heq2; exact h1
+          split at hr
+          · rename_i w3 hop
+            have h5 := ny_ok h3 hop
+            have hwn := writeNew_ny (k := k) f.perms (bytesOf f.content) h5
+            split at hr
+            · rename_i heq3; rw [heq3] at hwn; subst hr; exact hwn
+            · rename_i heq3; rw [heq3] at hwn; subst hr; exact hwn
+          · subst hr; exact .inr rfl
+          · subst hr; exact .inr rfl
+
+theorem saveAll_ny (mem : Mem) : ∀ {w : World} {dirs : List Key}, NY w →
+    WRNY (·.1) (saveAll w mem dirs) := by
+  induction mem with
+  | nil => intro w dirs h; unfold saveAll; exact h
+  | cons x rest ih =>
+    intro w dirs h
+    obtain ⟨cs, name, f⟩ := x
+    generalize hr : saveAll w ((cs, name, f) :: rest) dirs = r
+    unfold saveAll at hr
+    have hs := saveModifiedFile_ny (name := name) (f := f) h
+    split at hr
+    · rename_i heq; rw [heq] at hs; subst hr; exact hs
+    · rename_i heq; rw [heq] at hs; subst hr; exact ih hs
+
+theorem cleanUp_ny (fuel : Nat) : ∀ {w : World} {k : Key}, NY w → WRNY id (cleanUp w fuel k) := by
+  induction fuel with
+  | zero => intro w k h; unfold cleanUp; exact h
+  | succ n ih =>
+    intro w k h
+    generalize hr : cleanUp w (n + 1) k = r
+    unfold cleanUp at hr
+    split at hr
+    · subst hr; exact h
+    · subst hr; exact .inr rfl
+    · subst hr; exact h
+    · split at hr
+      · subst hr; exact .inr rfl
+      all_goals
+        rename_i w1 hop
+        have h1 : NY w1 := by
+          first | exact ny_ok h hop | exact ny_notFound h hop
+        split at hr
+        · subst hr; exact h1
+        · subst hr; exact ih h1
+
+theorem cleanAll_ny (ks : List Key) : ∀ {w : World}, NY w → WRNY id (cleanAll w ks) := by
+  induction ks with
+  | nil => intro w h; unfold cleanAll; exact h
+  | cons k ks ih =>
+    intro w h
+    generalize hr : cleanAll w (k :: ks) = r
+    unfold cleanAll at hr
+    have hc := cleanUp_ny (k.length + 1) (k := k) h
+    split at hr
+    · rename_i heq; rw [heq] at hc; subst hr; exact hc
+    · rename_i heq; rw [heq] at hc; subst hr; exact ih hc
+
+theorem saveBackup_ny {patchName name : Bytes} {f : FileSt Bytes} (h : NY w) :
+    WRNY id (saveBackup w patchName name f) := by
+  generalize hr : saveBackup w patchName name f = r
+  unfold saveBackup at hr
+  split at hr
+  · subst hr; exact .inr rfl
+  · rename_i k _
+    split at hr
+    · rename_i w1 hop
+      have h1 := ny_ok h hop
+      split at hr
+      · subst hr; exact .inr rfl
+      all_goals
+        rename_i w2 hop2
+        have h2 : NY w2 := by
+          first | exact ny_ok h1 hop2 | exact ny_notFound h1 hop2
+        split at hr
+        · rename_i w3 hop3
+          subst hr
+          exact writeNew_ny _ _ (ny_ok h2 hop3)
+        · subst hr; exact .inr rfl
+        · subst hr; exact .inr rfl
+    · subst hr; exact .inr rfl
+    · subst hr; exact .inr rfl
+
+theorem rollbackAndSaveBackups_ny (ss : List Status) : ∀ {w : World} {mem : Mem} {downTo : Nat},
+    NY w → WRNY (·.1) (rollbackAndSaveBackups w mem ss downTo) := by
+  induction ss with
+  | nil => intro w mem d h; unfold rollbackAndSaveBackups; exact h
+  | cons s rest ih =>
+    intro w mem d h
+    generalize hr : rollbackAndSaveBackups w mem (s :: rest) d = r
+    unfold rollbackAndSaveBackups at hr
+    split at hr
+    · subst hr; exact h
+    · split at hr
+      · subst hr; exact .inl h
+      · rename_i mem1 file _
+        have hb := saveBackup_ny (patchName := s.patchName) (name := s.target) (f := file) h
+        split at hr
+        · rename_i heq; rw [heq] at hb; subst hr; exact hb
+        · rename_i w1 heq
+          rw [heq] at hb
+          have h1 : NY w1 := hb
+          split at hr
+          · split at hr
+            · subst hr; exact .inl h1
+            · rename_i newName _
+              split at hr
+              · subst hr; exact .inl h1
+              · rename_i nf _
+                have hb2 := saveBackup_ny (patchName := s.patchName) (name := newName) (f := nf) h1
+                split at hr
+                · rename_i heq2; rw [heq2] at hb2; subst hr; exact hb2
+                · rename_i heq2; rw [heq2] at hb2; subst hr; exact ih hb2
+          · subst hr; exact ih h1
+
+theorem rollbackAndSaveBackups_ny' {ss : List Status} {mem : Mem} {downTo : Nat}
+    {r : WR (World × Mem)} (h : NY w) (e : rollbackAndSaveBackups w mem ss downTo = r) :
+    WRNY (·.1) r := e ▸ rollbackAndSaveBackups_ny ss h
+
+theorem applyPatches_ny {cfg : Cfg} {range : List Series.Entry} (h : NY w) :
+    WRNY (·.1) (applyPatches w cfg range) := by
+  generalize hr : applyPatches w cfg range = r
+  unfold applyPatches at hr
+  split at hr
+  · subst hr; exact .inl h
+  · rename_i st final rejs hloop
+    split at hr
+    · subst hr; exact h
+    · have hs := saveAll_ny st.mem (dirs := []) h
+      split at hr
+      · rename_i heq; rw [heq] at hs; subst hr; exact hs
+      · rename_i w1 dirs heq
+        rw [heq] at hs
+        have hc := cleanAll_ny dirs (w := w1) hs
+        split at hr
+        · rename_i heq2; rw [heq2] at hc; subst hr; exact hc
+        · rename_i w2 heq2
+          rw [heq2] at hc
+          have hj := saveRejFiles_ny rejs (w := w2) hc
+          split at hr
+          · rename_i heq3; rw [heq3] at hj; subst hr; exact hj
+          · rename_i w3 heq3
+            rw [heq3] at hj
+            have h3 : NY w3 := hj
+            split at hr
+            · simp only at hr
+              split at hr
+              · rename_i heq4
+                have hb := rollbackAndSaveBackups_ny' h3 heq4
+                subst hr; exact hb
+              · rename_i heq4
+                have hb := rollbackAndSaveBackups_ny' h3 heq4
+                subst hr; exact hb
+            · subst hr; exact h3
+
+theorem saveApplied_ny {names : List Bytes} (h : NY w) : WRNY id (saveApplied w names) := by
+  generalize hr : saveApplied w names = r
+  unfold saveApplied at hr
+  split at hr
+  · rename_i w1 hop
+    have h1 := ny_ok h hop
+    split at hr
+    · rename_i w2 hop2
+      have h2 := ny_ok h1 hop2
+      split at hr
+      · subst hr; exact h2
+      · split at hr
+        · rename_i hop3; subst hr; exact ny_ok h2 hop3
+        · subst hr; exact .inr rfl
+        · subst hr; exact .inr rfl
+    · subst hr; exact .inr rfl
+    · subst hr; exact .inr rfl
+  · subst hr; exact .inr rfl
+  · subst hr; exact .inr rfl
+
+/-- the end result: the fault was not attempted, or the outcome is `error` -/
+theorem pushRange_ny {cfg : Cfg} {range : List Series.Entry} (h : NY w) :
+    NY (pushRange cfg w range).2 ∨ (pushRange cfg w range).1 = .error := by
+  generalize hr : pushRange cfg w range = r
+  unfold pushRange at hr
+  have ha := applyPatches_ny (cfg := cfg) (range := range) h
+  split at hr
+  · subst hr; exact .inr rfl
+  · rename_i w' heq
+    rw [heq] at ha
+    subst hr
+    cases ha with
+    | inl ha => exact .inl ha
+    | inr ha => cases ha
+  · rename_i w1 final heq
+    rw [heq] at ha
+    have h1 : NY w1 := ha
+    split at hr
+    · subst hr; exact .inl h1
+    · have hs := saveApplied_ny (names := (range.take final).map (·.name)) h1
+      split at hr
+      · subst hr; exact .inr rfl
+      · rename_i heq2; rw [heq2] at hs; subst hr; exact .inl hs
+
+theorem push_ny {cfg : Cfg} (h : NY w) : NY (push cfg w).2 ∨ (push cfg w).1 = .error := by
+  unfold push
+  split
+  · exact .inl h
+  · exact .inl h
+  · exact pushRange_ny h
 
 end RQ.Push
